@@ -186,7 +186,16 @@ def run_case(spec, ctx):
                 st1 = rg.status(E, e1, tol["tol_b"] if rg.has(E, rg.is_boundary) else tol["tol_in"])
                 if (st1 == rg.OUT).any():
                     i = int(np.where(st1 == rg.OUT)[0][0])
-                    ctx.violation("sample-outside", top + "|after-evaluation",
+                    # rows on a piece shared by two operand boundaries are the contact-set defect D21 (present
+                    # without any evaluation as well): named after the operation joining the operands
+                    contact = []
+                    for i2 in np.where(st1 == rg.OUT)[0][:20]:
+                        try:
+                            contact.append(geo.contact_op(E, {kk: v[[i2]] for kk, v in e1.items()}, tol["tol_b"]))
+                        except Exception:      # noqa: BLE001 - classification only
+                            contact.append(None)
+                    suffix = ("+touching:" + contact[0].split("+")[0]) if contact and all(contact) and rg.has(E, rg.is_boundary) else ""
+                    ctx.violation("sample-outside", top + "|after-evaluation" + suffix,
                                   f"random sample of D(**vals) at {np.round(P1.as_tensor[i].numpy(), 5).tolist()} is not in the set denoted at vals")
             else:
                 ctx.event("rowcount(C02)")
